@@ -11,7 +11,7 @@ Request:  (edit SRC UNIT (EDIT ...) TREE RTAB)
            (sub RS "var" "new")            SubstituteExpressions({var: new}, rebuild_scopes=RS).visit(body)  (scalar rename, at most once)
   HANDLE = none | (node H) | (tuple H ...);  H = (ref IDX) an existing node (moved/copied) | (fresh J) the J-th fresh statement
   TREE   = export of the routine body as the frontend produced it:
-           (KIND LBL (INLINE ELSEIF LABEL|none ENDDO) STATUS L0 L1 (line ...) (body ...) (else ...))
+           (KIND LBL (INLINE ELSEIF LABEL|none ENDDO NAME|none) STATUS L0 L1 (line ...) (body ...) (else ...))
   RTAB   = ((LBL ((hdr ...) (hdrEI ...) (mid ...) (ftr ...)) BIND NOIND ASG) ...)  what the regular backend prints for the node
            itself at depth 0 (children replaced by markers); entries for the original nodes, the fresh nodes (LBL >= 100000) and the
            substituted variants (LBL + 50000);  ASG = none | ("lhs" "rhs" "str(lhs)" "str(rhs)" "comment" PTR)
@@ -130,6 +130,27 @@ def _plain(o, **kw):
     return FortranCodegen(style=FortranStyle(), depth=0).visit(o, **kw)
 
 
+_effname = {}      # (source lines, source string) of an ELSE IF branch -> the construct name handed down by the enclosing IF
+
+
+def note_names(body):
+    def walk(c, inherited):
+        name = c.name or inherited
+        if name and c.source:
+            _effname[(c.source.lines, c.source.string)] = name
+        if c.has_elseif and c.else_body and isinstance(c.else_body[0], ir.Conditional):
+            walk(c.else_body[0], name)
+    for o in preorder(body):
+        if isinstance(o, ir.Conditional) and (o.source is None or (o.source.lines, o.source.string) not in _effname):
+            walk(o, None)
+
+
+def eff_name(o):
+    if not isinstance(o, ir.Conditional):
+        return None
+    return o.name or (_effname.get((o.source.lines, o.source.string)) if o.source else None)
+
+
 def render_data(o):
     """[(hdr hdrEI mid ftr) bind noind asg] for one node: what the regular backend prints for the node itself at depth 0"""
     k = kind_of(o)
@@ -156,11 +177,13 @@ def render_data(o):
                 raise Unsupported('inline conditional layout')
             return [[[txt[:-len(MB)]], [], [], []], 0, False, asg]
         c = o.clone(body=(mb,), else_body=(me,), has_elseif=False, source=None)
-        lines = _plain(c).split('\n')
+        nm = eff_name(o)
+        kw = {'name': f' {nm}'} if nm and not o.name else {}      # an ELSE IF branch gets the construct name through kwargs
+        lines = _plain(c, **kw).split('\n')
         ib = [i for i, l in enumerate(lines) if l.strip() == MB][0]
         ie = [i for i, l in enumerate(lines) if l.strip() == ME][0]
         bind = len(lines[ib]) - len(lines[ib].lstrip())
-        ei = _plain(c, is_elseif=True).split('\n')
+        ei = _plain(c, is_elseif=True, **kw).split('\n')
         ib2 = [i for i, l in enumerate(ei) if l.strip() == MB][0]
         return [[lines[:ib], ei[:ib2], lines[ib + 1:ie], lines[ie + 1:]], bind, False, asg]
     c = o.clone(body=(mb,), source=None)       # loop, scoped, iother: one body
@@ -198,6 +221,7 @@ class World:
         self.keys = {}      # content key -> lbl
         self.rtab = {}      # lbl -> render data
         self.bypos = {}     # (class, lines, string) -> original lbl
+        note_names(self.body)
         for i, o in enumerate(preorder(self.body)):
             if kind_of(o) is None:
                 raise Unsupported(type(o).__name__)
@@ -238,7 +262,7 @@ class World:
         b, e = node_kids(o)
         lab = getattr(o, 'label', None)
         fl = [bool(getattr(o, 'inline', False)), bool(getattr(o, 'has_elseif', False)), A('none') if lab is None else str(lab),
-              bool(getattr(o, 'has_end_do', True))]
+              bool(getattr(o, 'has_end_do', True)), A('none') if eff_name(o) is None else str(eff_name(o))]
         return [A(kind_of(o)), self.lbl(o), fl, A(status_of(o)), l0, l1, lines,
                 [self.export(c) for c in b], [self.export(c) for c in e]]
 
@@ -335,7 +359,8 @@ def apply_edit(world, body, ed):
             kids = tuple(x for c in getattr(parent, field) for x in (new if c is target else (c,)))
             parent._update(**{field: kids})
             for anc, _ in path:
-                if anc.source:
+                # (only a still-valid source: `invalidate(children=True)` would downgrade an INVALID_NODE flag)
+                if anc.source and anc.source.status == SourceStatus.VALID:
                     anc.source.invalidate(children=True)
         res = body
     else:
@@ -559,7 +584,21 @@ def logical_lines(text):
     return res
 
 
+def strip_construct_names(stmts):
+    """`ELSE name`, `ELSE IF (..) THEN name`, `END IF name`: the name is optional on ELSE/ELSE IF and carries no meaning"""
+    names = {m.group(1) for s in stmts for m in [re.match(r'(?:\d+)?([a-z_]\w*):if\(', s)] if m}
+    out = []
+    for s in stmts:
+        for nm in names:
+            if s.endswith(nm) and (s == 'else' + nm or s == 'endif' + nm or (s.startswith('elseif(') and s.endswith(')then' + nm))):
+                s = s[:-len(nm)]
+                break
+        out.append(s)
+    return out
+
+
 def first_diff(a, b):
+    a, b = strip_construct_names(a), strip_construct_names(b)
     for i, (x, y) in enumerate(zip(a, b)):
         if x != y:
             return f'statement {i}: {x!r} vs {y!r}'
@@ -594,6 +633,7 @@ class G:
         self.spice = spice
         self.label = 10
         self.nloop = 0
+        self.ncond = 0
 
     def p(self, q):
         return self.rng.random() < q
@@ -698,19 +738,26 @@ class G:
             if self.spice and self.p(0.15):
                 return [f'{ind}{kw} ({self.cmp(loopvars)}) {self.ref(loopvars)} = {self.expr(loopvars)}']
             body = self.block(ind + step, loopvars, budget - 1, depth + 1)
+            # a named construct: the name is required on END IF, optional on ELSE IF and ELSE
+            nm = ''
+            if self.p(0.2):
+                self.ncond += 1
+                nm = f'chk{self.ncond}'
+            tag = lambda q: (' ' + self.case(nm)) if nm and self.p(q) else ''
+            pre = f'{nm}: ' if nm else ''
             if self.spice and self.p(0.12):
-                hdr = [f'{ind}{kw} ({self.cmp(loopvars)} .and. &', f'{ind}   & {self.cmp(loopvars)}) {then}']
+                hdr = [f'{ind}{pre}{kw} ({self.cmp(loopvars)} .and. &', f'{ind}   & {self.cmp(loopvars)}) {then}']
             else:
-                hdr = [f'{ind}{kw} ({self.cmp(loopvars)}) {then}']
+                hdr = [f'{ind}{pre}{kw} ({self.cmp(loopvars)}) {then}']
             out = hdr + body
             n_ei = 0
-            if self.spice and self.p(0.3):
+            if self.p(0.3 if self.spice else 0.12):
                 n_ei = 1 if self.p(0.6) else 2
             for _ in range(n_ei):
-                out += [f'{ind}{self.case("else if")} ({self.cmp(loopvars)}) {then}']
+                out += [f'{ind}{self.case("else if")} ({self.cmp(loopvars)}) {then}{tag(0.5)}']
                 out += self.block(ind + step, loopvars, budget - 1, depth + 1)
             if self.p(0.45):
-                el = self.case('else')
+                el = self.case('else') + tag(0.75)
                 if self.spice and self.p(0.1):
                     el += '  ! otherwise'
                 out += [f'{ind}{el}']
@@ -718,6 +765,8 @@ class G:
                     # lines that *start* with ELSE inside the else branch: a nested IF / ELSE IF (written with a blank)
                     out += self.nested_elseif(ind + step, loopvars)
                 out += self.block(ind + step, loopvars, budget - 1, depth + 1)
+            if nm:
+                endif += ' ' + self.case(nm)
             if self.spice and self.p(0.1):
                 endif += '  ! done'
             return out + [f'{ind}{endif}']
@@ -730,12 +779,17 @@ class G:
     def nested_elseif(self, ind, loopvars):
         step = '  '
         kw, then = self.case('if'), self.case('then')
-        out = [f'{ind}{kw} ({self.cmp(loopvars)}) {then}'] + self.assign(ind + step, loopvars)
+        nm = ''
+        if self.p(0.35):            # a nested *named* construct: its `ELSE name` line starts with ELSE too
+            self.ncond += 1
+            nm = f'nst{self.ncond}'
+        tag = lambda q: (' ' + self.case(nm)) if nm and self.p(q) else ''
+        out = [f'{ind}{nm + ": " if nm else ""}{kw} ({self.cmp(loopvars)}) {then}'] + self.assign(ind + step, loopvars)
         for _ in range(self.rng.randint(1, 2)):
-            out += [f'{ind}{self.case("else if")} ({self.cmp(loopvars)}) {then}'] + self.assign(ind + step, loopvars)
-        if self.p(0.4):
-            out += [f'{ind}{self.case("else")}'] + self.assign(ind + step, loopvars)
-        return out + [f'{ind}{self.rng.choice(["end if", "endif", "END IF"])}']
+            out += [f'{ind}{self.case("else if")} ({self.cmp(loopvars)}) {then}{tag(0.5)}'] + self.assign(ind + step, loopvars)
+        if self.p(0.5 if nm else 0.4):
+            out += [f'{ind}{self.case("else")}{tag(0.85)}'] + self.assign(ind + step, loopvars)
+        return out + [f'{ind}{self.rng.choice(["end if", "endif", "END IF"])}{" " + self.case(nm) if nm else ""}']
 
     def else_nest_body(self, ind):
         """a block IF with a plain ELSE whose else branch holds lines that *start* with ELSE (nested ELSE IF, possibly inside a loop)"""
@@ -826,9 +880,6 @@ def classify(tree):
             first = strip_comment(t_text(n)[0]).rstrip() if t_text(n) else ''
             if first.endswith('&'):
                 out.add('multiline-header-truncated')
-            if k == 'cond' and not t_elseif(n) and t_els(n) and \
-                    not any(l.upper().split('!', maxsplit=1)[0].strip() == 'ELSE' for l in t_text(n)):
-                out.add('named-else-not-found')
         if parent is not None and k == 'comment' and t_status(n) == 'valid':
             sib = list(t_body(parent)) + list(t_els(parent))
             i = [j for j, c in enumerate(sib) if c is n][0]
@@ -975,7 +1026,7 @@ def _tables():
 
 # ---------------------------------------------------------------- the property
 
-PRIORITY = ['named-else-not-found', 'multiline-header-truncated', 'inline-comment-repeated']
+PRIORITY = ['multiline-header-truncated', 'inline-comment-repeated']
 SEMANTIC = PRIORITY[:-1]
 CPPMACRO = re.compile(r'__(LINE|FILE|DATE|TIME|VERSION__)')
 
@@ -1137,7 +1188,7 @@ class C03(Prop):
                 ref = logical_lines(fgen(n) or '')
                 if getattr(n, 'label', None) and ref:
                     ref[0] = str(n.label) + ref[0]          # the label is printed by visit_tuple, not by the node's handler
-                if logical_lines(st) != ref:
+                if first_diff(logical_lines(st), ref):
                     cls = None
                     if k == 'scoped':
                         cls = 'scoped-node-source-stale'
